@@ -336,6 +336,14 @@ class Ctx:
             f.write(p.stdout)
         rp = os.path.join(outd, "result.json")
         if not os.path.exists(rp):
+            crash = foreign_goroutine_panic(p.stdout)
+            if crash:
+                # the test process was killed by a panic in a goroutine that the CODE UNDER TEST started (no harness frame on its
+                # stack: the harness cannot recover it): real-code behaviour, not an infrastructure failure
+                self.violation({"kind": "process-crash", "driver": pkg, "where": crash["where"]},
+                               {"what": "a goroutine started by the code under test panicked and took the process down: " + crash["msg"],
+                                "stack": crash["stack"], "driver": "%s/%s" % (pkg, test), "seed": self.seed})
+                return {"_out": outd, "_rc": p.returncode, "_log": p.stdout, "violations": [], "evaluations": 0, "crashed": True}
             raise Inconclusive("driver %s/%s produced no result (rc=%d):\n%s" % (pkg, test, p.returncode, tail(p.stdout, 60)))
         res = json.load(open(rp))
         res["_out"] = outd
@@ -437,6 +445,28 @@ class ModelError(Exception):
     def __init__(self, msg, res=None):
         super().__init__(msg)
         self.res = res
+
+
+def foreign_goroutine_panic(out):
+    """If a go test output ends with a panic whose goroutine has frames of the repository under test and NONE of the
+    harness (package path verifharness/), return {msg, where, stack}; else None."""
+    i = out.rfind("\npanic: ")
+    if i < 0:
+        return None
+    tail_ = out[i + 1:]
+    j = tail_.find("\ngoroutine ")
+    if j < 0:
+        return None
+    block = tail_[j + 1:].split("\n\n")[0]
+    if "verifharness/" in block or "github.com/nspcc-dev/neo-go/" not in block:
+        return None
+    where = ""
+    for line in block.splitlines()[1:]:
+        line = line.strip()
+        if line.startswith("github.com/nspcc-dev/neo-go/"):
+            where = line.split("(")[0].replace("github.com/nspcc-dev/neo-go/", "")
+            break
+    return {"msg": tail_.splitlines()[0][:300], "where": where, "stack": block.splitlines()[:24]}
 
 
 def load_known():
@@ -542,12 +572,16 @@ def main(argv):
         rc = 1 if ctx.violations else 0
     except Inconclusive as e:
         log("INCONCLUSIVE:", e)
-        rc = 2
+        rc = 1 if ctx.violations else 2   # a violation already exhibited by real code stands
     except ModelError as e:
         log("MODEL ERROR (model-level counterexample or broken spec; not a verdict):", e)
         if e.res:
             log(tail(e.res["out"], 60))
         rc = 2
+    except Exception as e:      # a stage could not go on (e.g. after the driver process was crashed by the code under test)
+        import traceback
+        log("check aborted:", "".join(traceback.format_exception_only(type(e), e)).strip())
+        rc = 1 if ctx.violations else 2
     finally:
         try:
             if rc in (0, 1):
